@@ -4,6 +4,7 @@ import (
 	"covr/internal/cases"
 	"covr/internal/e1"
 	"covr/internal/genr"
+	"covr/internal/verdict"
 )
 
 func yields2(o *e1.Outcome) bool { return o.Run != nil && o.Run.MaxYields >= 2 }
@@ -49,4 +50,84 @@ func C11(c *Ctx) {
 		AcceptanceViolations: true,
 		MinDistinct:          2,
 	})
+}
+
+// C02 — demand-driven, lockstep execution.
+func C02(c *Ctx) {
+	q := c.Rep.QuarantinedFeatures()
+	progs := append(cases.Fx(), cases.Ctl()...)
+	progs = append(progs, cases.Accept()...)
+	nodes, capN, nrand := 3, 1500, 500
+	if c.Thorough() {
+		nodes, capN, nrand = 4, 8000, 6000
+	}
+	ex, total, complete := genr.Exhaustive(nodes, capN, q, c.Seed)
+	progs = append(progs, ex...)
+	progs = append(progs, genr.Random(genr.Fx, nrand, c.Seed+1, q)...)
+	c.Rep.Set("exhaustive_shapes_total", total)
+	c.Rep.Set("exhaustive_shapes_complete", complete)
+	c.Rep.Rule = "effect-dense programs (variables mutated after being yielded, effects in every slot) under every decision-tape path and the histories drain / K=0,1,2,4 / 2 calls after exhaustion; compared: the FULL interleaved trace (consumer call/return markers + generator-side effects and expression evaluations) compiled vs reference coroutine, plus 'no event after the consumer stopped'. non-trivial = >= 2 yields on some path; distinct = shape hash x tape."
+	RunE1(c, E1Spec{
+		Programs:    progs,
+		Opts:        e1.Opts{Hist: []int{0, 1, 2, 4}, HistPaths: 4},
+		Kinds:       []string{"CR-full", "POSTSTOP", "STUB"},
+		NonTrivial:  yields2,
+		MinDistinct: 500,
+	})
+}
+
+// C13 — non-generator code is behaviourally unchanged.
+func C13(c *Ctx) {
+	progs := cases.Opt()
+	c.Rep.Rule = "bystander declarations (closures of the shape func(ps){return f(ps)} over mutable function variables, method values, builtins, conversions, generic/variadic callees, widening results; constants, initialisers, methods) co-located with a generator; the SOURCE package built natively is the reference, the generated package must produce the same result/effect trace and must build. distinct = program x tape."
+	RunE1(c, E1Spec{
+		Programs:             progs,
+		Opts:                 e1.Opts{},
+		Kinds:                []string{"NC-full", "STUB"},
+		AcceptanceViolations: true,
+		MinDistinct:          2,
+	})
+}
+
+// C07 — the optimisation pass never changes behaviour (stage-1 vs final, hook H1).
+func C07(c *Ctx) {
+	q := c.Rep.QuarantinedFeatures()
+	progs := append(cases.Opt(), cases.OptGen()...)
+	progs = append(progs, cases.Fx()...)
+	progs = append(progs, cases.Ctl()...)
+	progs = append(progs, cases.Accept()...)
+	nodes, capN, nrand := 3, 1500, 300
+	if c.Thorough() {
+		nodes, capN, nrand = 4, 8000, 4000
+	}
+	ex, total, complete := genr.Exhaustive(nodes, capN, q, c.Seed)
+	progs = append(progs, ex...)
+	progs = append(progs, genr.Random(genr.Fx, nrand, c.Seed+2, q)...)
+	progs = append(progs, genr.Random(genr.Ctl, nrand, c.Seed+3, q)...)
+	c.Rep.Set("exhaustive_shapes_total", total)
+	c.Rep.Set("exhaustive_shapes_complete", complete)
+	c.Rep.Rule = "every program of the E1 streams + optimiser-directed cases (eta-reduction side conditions, user closures in the same file, loop conditions that are method values / function variables); the unoptimised stage-1 package (snapshot taken by the verif hook inside the real Compile) and the optimised package are both built and run under every tape path and history; compared: full interleaved traces stage-1 vs final; final must build whenever stage-1 builds. non-trivial = the optimiser changed the text of the program's declarations (measured); distinct = shape hash x tape."
+	outs := RunE1(c, E1Spec{
+		Programs:    progs,
+		Opts:        e1.Opts{Stage1: true},
+		Kinds:       []string{"SC-full"},
+		NonTrivial:  func(o *e1.Outcome) bool { return o.OptFired },
+		MinDistinct: 500,
+		Judge: func(c *Ctx, o *e1.Outcome) bool {
+			if o.CompilePanic == "" && o.BuildErr != "" && o.S1BuildErr == "" {
+				c.Rep.Violate(verdict.Violation{Case: o.Prog.Name, Sig: "optimised-does-not-build:" + buildSig(o.BuildErr),
+					What:   "the optimised package does not build although the unoptimised stage-1 package does:\n" + trimTo(o.BuildErr, 1500) + "\n--- source\n" + o.CoSource,
+					Replay: replayDoc{Engine: "e1", Program: o.Prog, Stage1: true, CoSrc: o.CoSource, Output: o.OutText}})
+				return true
+			}
+			return false
+		},
+	})
+	fired := 0
+	for _, o := range outs {
+		if o.OptFired {
+			fired++
+		}
+	}
+	c.Rep.Count("programs_where_optimiser_changed_text", fired)
 }
